@@ -101,6 +101,10 @@ class ThreadWorker(Worker):
 
     def _get_result(self):
         # _result is set by the child directly
+        if self._result is None and self._started and not self.is_child and not self.is_alive():
+            # the child is gone without having recorded anything (e.g. an asynchronous
+            # exception landed in its own exception handler): nothing could be reported
+            return (False, None)
         return self._result
 
     #
